@@ -14,10 +14,25 @@
 (*    2), plus, for Independence, a shadow instance per value that only    *)
 (*    ever sees that value's own sub-history.                              *)
 (*                                                                         *)
+(* "While the configured parameter capacity is not exceeded" is read per   *)
+(* value: lost[v] becomes (and stays) TRUE when a request of v arrives     *)
+(* after at least `capacity' distinct OTHER values have been used since    *)
+(* v's last admitted request (its recency rank, HotParamQpsOps).  LARGE    *)
+(* numbers of other values are modelled by the action Flood(n): n requests *)
+(* with n fresh values that are never used again - at the property level   *)
+(* they add n to every value's rank, in the algorithm they are n anonymous *)
+(* entries of the LRU caches.                                              *)
+(*                                                                         *)
 (* TLC checks that the decisions of the algorithm satisfy the envelopes    *)
-(* and equal the decisions of the single-value shadows while the number of *)
-(* distinct values does not exceed the capacity; E3, P2 and NoArg hold     *)
-(* regardless of the capacity; the retry loop never spins (NoHang).        *)
+(* and equal the decisions of the single-value shadows for every value     *)
+(* that is not lost (so a flood BELOW the capacity never changes a         *)
+(* decision), that the state of a value is kept while its rank is below    *)
+(* the capacity (KeepOK), that every fresh value of a flood is admitted    *)
+(* (FloodFreshOK); E3, P2 and NoArg hold regardless of the capacity; the   *)
+(* retry loop never spins (NoHang).  The capacity is the rule's explicit   *)
+(* ParamsMaxCapacity or the derived default (EffCap over PCap, CapBase,    *)
+(* CapMax - scaled down here); Mutant selects a wrong sizing of the caches *)
+(* (the invariants must reject it).                                        *)
 (* Time is in ms (1 ms = clock resolution of the code).                    *)
 (***************************************************************************)
 EXTENDS HotParamQpsOps, TLC
@@ -28,7 +43,14 @@ CONSTANTS
     Batches,    \* batch counts of a request
     Steps,      \* clock increments (ms)
     MaxT,       \* bound on the clock
-    MaxOps      \* bound on the number of requests
+    MaxOps,     \* bound on the number of requests
+    Floods,     \* sizes of floods (numbers of fresh values); {} = no floods
+    PCap,       \* Rule.ParamsMaxCapacity as configured (0 = not configured: the derived default)
+    CapBase, CapMax,    \* the constants of the default capacity (library: 4000 per second of duration, at most 20000)
+    Mutant      \* "" = the sizing of the caches as specified; "clamp" = the upper bound CapMax meant for the derived
+                \* default also cuts an explicit capacity; "offbyone" = one entry less than configured
+
+ASSUME Cf.cap = EffCap(PCap, Cf.D, CapBase, CapMax)
 
 VARIABLES
     now,
@@ -36,21 +58,29 @@ VARIABLES
     last,       \* [Values -> time of the previous request, -1 = none]
     adm,        \* [Values -> sequence of [t, b]]      admitted (reject mode)
     sched,      \* [Values -> sequence of [at, b]]     scheduled pass times (throttle mode)
+    since,      \* [Values -> set of other values requested since its last admitted request]
+    fl,         \* [Values -> number of fresh (flood) values since its last admitted request]
+    lost,       \* [Values -> BOOLEAN] a request of the value arrived when its rank had reached the capacity
     tc, kc,     \* implementation: RuleTimeCounter / RuleTokenCounter
     sh,         \* shadow: [Values -> [tc, kc]] private caches of a single-value instance
     dec,        \* the last decision and what the property says about it
     nops,
     h           \* history of operations (scenario for the conformance driver; hidden by VIEW)
 
-vars == <<now, first, last, adm, sched, tc, kc, sh, dec, nops, h>>
-view == <<now, first, last, adm, sched, tc, kc, sh, dec>>
+vars == <<now, first, last, adm, sched, since, fl, lost, tc, kc, sh, dec, nops, h>>
+view == <<now, first, last, adm, sched, since, fl, lost, tc, kc, sh, dec>>
 
 Seen == { v \in Values : first[v] >= 0 }
-\* the configured parameter capacity is exceeded: per-value state may have been evicted
-Over(f) == Cardinality({ v \in Values : f[v] >= 0 }) > Cf.cap
 ShadowCf == [Cf EXCEPT !.cap = 1]       \* a shadow instance only ever holds its own value
+\* the size the implementation gives its caches
+ImplCap == CASE Mutant = "clamp"    -> (LET s0 == IF PCap > 0 THEN PCap ELSE CapBase * (Cf.D \div 1000)
+                                       IN  IF s0 <= 0 \/ s0 > CapMax THEN CapMax ELSE s0)
+             [] Mutant = "offbyone" -> IF Cf.cap > 1 THEN Cf.cap - 1 ELSE Cf.cap
+             [] OTHER               -> Cf.cap
+ImplCf == [Cf EXCEPT !.cap = ImplCap]
 
-NoDec == [v |-> None, b |-> 0, ok |-> TRUE, wait |-> 0, sok |-> TRUE, swait |-> 0, e3 |-> FALSE, hang |-> FALSE, over |-> FALSE]
+NoDec == [v |-> None, b |-> 0, ok |-> TRUE, wait |-> 0, sok |-> TRUE, swait |-> 0, e3 |-> FALSE, hang |-> FALSE, over |-> FALSE,
+          n |-> 0, fadm |-> 0]
 
 Init ==
     /\ now = 0
@@ -58,6 +88,9 @@ Init ==
     /\ last = [v \in Values |-> -1]
     /\ adm = [v \in Values |-> << >>]
     /\ sched = [v \in Values |-> << >>]
+    /\ since = [v \in Values |-> {}]
+    /\ fl = [v \in Values |-> 0]
+    /\ lost = [v \in Values |-> FALSE]
     /\ tc = EmptyCache /\ kc = EmptyCache
     /\ sh = [v \in Values |-> [tc |-> EmptyCache, kc |-> EmptyCache]]
     /\ dec = NoDec
@@ -67,10 +100,14 @@ Init ==
 \* a request that carries the selected argument with value v
 Request(v, b) ==
     /\ nops < MaxOps
-    /\ LET r == Step(Cf, tc, kc, v, b, now)
+    /\ LET r == Step(ImplCf, tc, kc, v, b, now)
            s == Step(ShadowCf, sh[v].tc, sh[v].kc, v, b, now)
            f == [first EXCEPT ![v] = IF @ < 0 THEN now ELSE @]
+           lo == [lost EXCEPT ![v] = @ \/ MayForget(Cf, since, fl, v, first[v] >= 0)]
        IN  /\ tc' = r.tc /\ kc' = r.kc
+           /\ lost' = lo
+           /\ since' = SinceAfter(since, v, r.ok, first[v] >= 0)
+           /\ fl' = FlAfter(fl, v, r.ok, first[v] >= 0)
            /\ sh' = [sh EXCEPT ![v] = [tc |-> s.tc, kc |-> s.kc]]
            /\ first' = f
            /\ last' = [last EXCEPT ![v] = now]
@@ -78,7 +115,8 @@ Request(v, b) ==
            /\ sched' = IF r.ok /\ Cf.mode = "throttle"
                          THEN [sched EXCEPT ![v] = Append(@, [at |-> now + r.wait, b |-> b])] ELSE sched
            /\ dec' = [v |-> v, b |-> b, ok |-> r.ok, wait |-> r.wait, sok |-> s.ok, swait |-> s.wait,
-                      e3 |-> Cf.mode = "reject" /\ E3Premise(Cf, v, last[v], now, b), hang |-> r.hang, over |-> Over(f)]
+                      e3 |-> Cf.mode = "reject" /\ E3Premise(Cf, v, last[v], now, b), hang |-> r.hang, over |-> lo[v],
+                      n |-> 0, fadm |-> 0]
     /\ nops' = nops + 1
     /\ h' = Append(h, [op |-> "req", t |-> now, v |-> v, b |-> b])
     /\ UNCHANGED now
@@ -89,16 +127,30 @@ RequestNoArg(b) ==
     /\ dec' = [NoDec EXCEPT !.b = b]
     /\ nops' = nops + 1
     /\ h' = Append(h, [op |-> "req", t |-> now, v |-> None, b |-> b])
-    /\ UNCHANGED <<now, first, last, adm, sched, tc, kc, sh>>
+    /\ UNCHANGED <<now, first, last, adm, sched, since, fl, lost, tc, kc, sh>>
+
+\* n requests (batch 1) with n fresh values - values outside Values, never used before or afterwards.  Their own
+\* histories need no state (each is a single request, judged at once: FloodFreshOK); for everybody else they are n
+\* more distinct values in use.
+Flood(n) ==
+    /\ nops < MaxOps
+    /\ LET r == FloodStep(ImplCf, tc, kc, n) IN
+       /\ tc' = r.tc /\ kc' = r.kc
+       /\ dec' = [NoDec EXCEPT !.n = n, !.fadm = r.adm]
+    /\ fl' = FlAfterFlood(fl, n)
+    /\ nops' = nops + 1
+    /\ h' = Append(h, [op |-> "flood", t |-> now, n |-> n])
+    /\ UNCHANGED <<now, first, last, adm, sched, since, lost, sh>>
 
 Tick(d) ==
     /\ now + d <= MaxT
     /\ now' = now + d
-    /\ UNCHANGED <<first, last, adm, sched, tc, kc, sh, dec, nops, h>>
+    /\ UNCHANGED <<first, last, adm, sched, since, fl, lost, tc, kc, sh, dec, nops, h>>
 
 Next ==
     \/ \E v \in Values, b \in Batches : Request(v, b)
     \/ \E b \in Batches : RequestNoArg(b)
+    \/ \E n \in Floods : Flood(n)
     \/ \E d \in Steps : Tick(d)
 
 Spec == Init /\ [][Next]_vars
@@ -106,20 +158,30 @@ Spec == Init /\ [][Next]_vars
 ---------------------------------------------------------------------------
 (* Properties *)
 
-Within == ~Over(first)
+\* the clauses scoped by "while the configured parameter capacity is not exceeded" are demanded for every value that
+\* was never lost (lost[v] only changes at a request of v, and nothing is admitted for v in between)
+Kept == { v \in Seen : ~lost[v] }
 
-E1OK == (Cf.mode = "reject" /\ Within) => \A v \in Seen : E1(Cf, v, first[v], adm[v], now)
-E2OK == (Cf.mode = "reject" /\ Within) => \A v \in Seen : E2(Cf, v, adm[v])
+E1OK == Cf.mode = "reject" => \A v \in Kept : E1(Cf, v, first[v], adm[v], now)
+E2OK == Cf.mode = "reject" => \A v \in Kept : E2(Cf, v, adm[v])
 E3OK == dec.e3 => dec.ok                                        \* whatever the capacity
-P1OK == (Cf.mode = "throttle" /\ Within) => \A v \in Seen : P1(Cf, v, sched[v])
+P1OK == Cf.mode = "throttle" => \A v \in Kept : P1(Cf, v, sched[v])
 P2OK == (Cf.mode = "throttle" /\ dec.ok) => P2(Cf, dec.wait)    \* whatever the capacity
 NoArgOK == dec.v = None => dec.ok /\ dec.wait = 0
-\* traffic on other values never changes the decision for this one while the capacity is not exceeded
+\* traffic on other values - floods included - never changes the decision for this one while the capacity is not
+\* exceeded: the decision is EXACTLY the one of the value's own sub-history
 IndepOK == ~dec.over => (dec.ok = dec.sok /\ dec.wait = dec.swait)
+\* the state of a value (it has one: something was admitted for it) is kept while its rank is below the capacity
+KeepOK == \A v \in Seen : ((adm[v] # << >> \/ sched[v] # << >>) /\ ~MayForget(Cf, since, fl, v, TRUE))
+                              => (Has(tc, v) /\ (Cf.mode = "reject" => Has(kc, v)))
+\* every fresh value of a flood is admitted (threshold >= 1) / none is (reject, threshold + burst = 0)
+FloodFreshOK == dec.n > 0 => FloodOK(Cf, dec.n, dec.fadm, 0)
 NoHang  == ~dec.hang
 \* both caches always hold the same keys in the same order (sequentially)
-CachesAgree == Cf.mode = "reject" => tc.ord = kc.ord
-CapOK == Len(tc.ord) <= Cf.cap /\ Len(kc.ord) <= Cf.cap
+CachesAgree == Cf.mode = "reject" => (tc.ord = kc.ord /\ tc.pos = kc.pos /\ tc.size = kc.size)
+CapOK == /\ tc.size <= ImplCap /\ kc.size <= ImplCap
+         /\ \A k \in DOMAIN tc.pos : tc.pos[k] < tc.size
+         /\ \A k \in DOMAIN kc.pos : kc.pos[k] < kc.size
 
 TypeOK == now \in 0..MaxT /\ nops \in 0..MaxOps
 =============================================================================
